@@ -442,6 +442,18 @@ func runExec(cfg *config) {
 		d.load(t3)
 		if modes["select"] && !nullable {
 			execSelectQueries(d, rr, t1)
+			if n%4 == 1 {
+				// a table without columns (CREATE TABLE z () is accepted): rows that hold nothing, an empty header
+				z := xtable{name: "z"}
+				for k := rr.Range(0, 3); k > 0; k-- {
+					z.rows = append(z.rows, []interface{}{})
+				}
+				d.load(z)
+				for _, q := range []string{"SELECT * FROM z", "SELECT count(*) FROM z", "SELECT 1 FROM z", "SELECT * FROM z JOIN z ON TRUE",
+					"SELECT * FROM z JOIN t2 ON TRUE", "SELECT * FROM z ORDER BY a", "SELECT a FROM z", "SELECT * FROM z LIMIT 1"} {
+					d.query(q, "exact", "no-columns")
+				}
+			}
 		}
 		if modes["join"] && !nullable {
 			execJoinQueries(d, rr, t1, t2, t3)
@@ -698,6 +710,11 @@ func execAggQueries(d *xdb, r *hx.Rng, t1, t2 xtable, nullable bool) {
 		}
 	}
 	d.query("SELECT t2.k, count(*) FROM t1 JOIN t2 ON t1.k = t2.k GROUP BY k", "exact", "agg")
+	// a star in a grouping query: the parser builds it, the executor refuses it, the reference gives it no
+	// meaning (which columns of a group would the star show?)
+	d.query("SELECT * FROM t1 GROUP BY a", "exact", "agg-star")
+	d.query("SELECT * FROM t1 WHERE id > 2 GROUP BY k, a ORDER BY k LIMIT 2", "exact", "agg-star")
+	d.query("SELECT * FROM t1 JOIN t2 ON t1.k = t2.k GROUP BY t1.k", "exact", "agg-star")
 	// the same column name on both sides of a join, selected and grouped by qualifier
 	d.query("SELECT t1.a, t2.a, count(*) FROM t1 JOIN t2 ON t1.k = t2.k GROUP BY t1.a, t2.a", "exact", "agg-qualified")
 	d.query("SELECT x.k, y.a, count(*), count(y.b) FROM t1 x JOIN t1 y ON x.k = y.k GROUP BY x.k, y.a", "exact", "agg-qualified")
